@@ -872,7 +872,14 @@ func vnSeeded(res *vResult) {
 		targets = append(targets, target{"lightrequest", [][]byte{must(lr.Encode()), must(NewLightRequest().Encode())}, nil,
 			func(b []byte) (any, error) { return newLightRequestFromBytes(b) },
 			func(m any) ([]byte, error) { return m.(*LightRequest).Encode() }})
-		targets = append(targets, target{"lightresponse", [][]byte{must(lresp.Encode()), must(NewLightResponse().Encode())}, nil,
+		// a response that carries headers, and header lists with absent (Option::None) entries: a peer chooses the bytes
+		lhdr := NewLightResponse()
+		lhdr.RemoteHeaderResponse.Header = []*types.Header{types.NewEmptyHeader(), types.NewEmptyHeader()}
+		lightExtra := [][]byte{{0, 0, 4, 0, 0, 0, 0, 0}, {0, 0, 8, 0, 0, 0, 0, 0, 0}, {0, 0, 12, 0, 0, 0, 0, 0, 0, 0}}
+		if enc, err := lhdr.Encode(); err == nil {
+			lightExtra = append(lightExtra, enc)
+		}
+		targets = append(targets, target{"lightresponse", [][]byte{must(lresp.Encode()), must(NewLightResponse().Encode())}, lightExtra,
 			func(b []byte) (any, error) { return newLightResponseFromBytes(b) },
 			func(m any) ([]byte, error) { return m.(*LightResponse).Encode() }})
 	}
